@@ -25,6 +25,16 @@ def base_history(base_seed: int, index: int, tier: str, avoid, nt):
     probes = default_probes(cfg)
     ops, counts, steps = [], {}, []
     violations = []
+    try:
+        _base_body(w, cfg, ops_rng, frng, avoiding, avoid, probes, ops, counts, steps, violations)
+    finally:
+        cleanup_world(w)
+    record = {"seed": seed, "prop": "C13", "index": index, "base_seed": base_seed,
+              "engine": "enum", "cfg": cfg, "ops": ops}
+    return record, counts, steps, violations
+
+
+def _base_body(w, cfg, ops_rng, frng, avoiding, avoid, probes, ops, counts, steps, violations):
     for opid in range(cfg["length"]):
         op = gen_op(ops_rng, frng, cfg, w, opid)
         op.pop("fault", None)
@@ -41,12 +51,8 @@ def base_history(base_seed: int, index: int, tier: str, avoid, nt):
         if c:
             counts[op["id"]] = c
         if r.violations:
-            violations = [(len(ops) - 1, v) for v in r.violations]
+            violations.extend((len(ops) - 1, v) for v in r.violations)
             break
-    cleanup_world(w)
-    record = {"seed": seed, "prop": "C13", "index": index, "base_seed": base_seed,
-              "engine": "enum", "cfg": cfg, "ops": ops}
-    return record, counts, steps, violations
 
 
 def fault_points(record, counts):
